@@ -146,6 +146,8 @@ class Normalizer(object):
         return num(e.value)
 
     def n_Name(self, e):
+        if e.id.endswith('#phi'):
+            return ('var', e.id)
         if e.id in self.env:
             v = self.env[e.id]
             return self.n(v) if isinstance(v, ast.AST) else v
@@ -381,8 +383,14 @@ def make_resolver(cfg, rd, at_node, stop=()):
         nm = name_node.id
         if nm in stop:
             return None
-        d = rd.unique_def(_at, nm)
-        if d is None:
+        ds = rd.reaching(_at, nm)
+        if not ds:
+            return None
+        if len(ds) > 1:
+            # several definitions reach: the value is path dependent
+            return ast.Name(id=nm + '#phi', ctx=ast.Load())
+        d = ds[0]
+        if d.kind == 'entry':
             return None
         v = rd.assigned_value(d, nm)
         if v is None:
